@@ -106,6 +106,24 @@ func fanBits(r *rng.R, width int) []uint64 {
 	return out
 }
 
+// fan2Bits: two stacked byte positions (width >= 2).
+func fan2Bits(r *rng.R, width int) (upper []uint64, anchor int, lower []uint64) {
+	if width < 2 {
+		return nil, 0, nil
+	}
+	base := r.U64()
+	pos := uint(1+r.Intn(width-1)) * 8
+	b0 := uint64(40 + r.Intn(180))
+	for b := uint64(0); b < 256; b++ {
+		upper = append(upper, (base&^(uint64(0xFF)<<pos))|b<<pos)
+	}
+	lbase := (base &^ (uint64(0xFF) << pos)) | b0<<pos
+	for c := uint64(0); c < 256; c++ {
+		lower = append(lower, (lbase&^(uint64(0xFF)<<(pos-8)))|c<<(pos-8))
+	}
+	return upper, int(b0), lower
+}
+
 func alwaysStorable[K any](m *ref.Map[K], k K) (bool, string) { return true, "" }
 
 func unsignedKind[T uints](name string, width int) *Kind[T] {
@@ -139,6 +157,17 @@ func unsignedKind[T uints](name string, width int) *Kind[T] {
 				out[i] = T(bs[i])
 			}
 			return out
+		},
+		Fan2: func(r *rng.R) ([]T, int, []T) {
+			u, a, l := fan2Bits(r, width)
+			cu, cl := make([]T, len(u)), make([]T, len(l))
+			for i := range u {
+				cu[i] = T(u[i])
+			}
+			for i := range l {
+				cl[i] = T(l[i])
+			}
+			return cu, a, cl
 		},
 		Deepen:   func(r *rng.R, a T) T { return a ^ 1 },
 		Enc:      func(a T) []byte { return codec.Unsigned(uint64(a), width) },
@@ -199,6 +228,17 @@ func signedKind[T ints](name string, width int) *Kind[T] {
 				out[i] = T(bs[i])
 			}
 			return out
+		},
+		Fan2: func(r *rng.R) ([]T, int, []T) {
+			u, a, l := fan2Bits(r, width)
+			cu, cl := make([]T, len(u)), make([]T, len(l))
+			for i := range u {
+				cu[i] = T(u[i])
+			}
+			for i := range l {
+				cl[i] = T(l[i])
+			}
+			return cu, a, cl
 		},
 		Deepen:   func(r *rng.R, a T) T { return a ^ 1 },
 		Enc:      func(a T) []byte { return codec.Signed(int64(a), width) },
